@@ -8,97 +8,97 @@ HERE = os.path.dirname(os.path.dirname(os.path.abspath(__file__)))
 CHECKS = {
  "C01": ("model_checking",
    "bounded exhaustive enumeration of the message universe x trailing suffixes on the real writer+parser (small-scope input space)",
-   "Every message of the universe U (complete products of per-field alphabets: all 256 HTYP bytes, all 256 MSIN bytes with the payload kind each requires, id/u32 alphabets, ~4.5k-40k single-argument variants of all 19 kinds incl. variable info/fixed point/float bit patterns, all argument sequences up to depth 2-3, non-verbose/control/network-trace payloads, 65535-byte boundary messages; both byte orders; with and without storage header) is serialised with Message::as_bytes, a suffix is appended (empty, all 256 single bytes, 'DLT\\x01', a following message, 64 KiB of zeros) and parsed with dlt_message: the result must be an Item that is bit-identical to the original (floats by to_bits) and the remainder must be exactly the suffix (pointer and length).",
+   "Every message of the universe U (complete products of per-field alphabets: all 256 HTYP bytes, all 256 MSIN bytes with the payload kind each requires, id/u32 alphabets, ~4.5k-40k single-argument variants of all 19 kinds incl. variable info/fixed point/float bit patterns, all argument sequences up to depth 2-3, non-verbose/control/network-trace payloads, 65535-byte boundary messages; both byte orders; with and without storage header) is serialised with Message::as_bytes, a suffix is appended (empty, all 256 single bytes, 'DLT\\x01', a following message, 64 KiB of zeros) and parsed with dlt_message: the result must be an Item that is bit-identical to the original (floats by to_bits) and the remainder must be exactly the suffix (pointer and length). U also contains sweep families: the storage pattern and the serial pattern embedded as content or as the first header bytes, EVERY length 0..=1100 (quick) / 0..=9000 (thorough) of 8 length-carrying fields, EVERY argument count 0..=255 in six shapes, bit-level value sweeps of every numeric kind and header field, and EVERY Unicode scalar value as string content. A suffix-length sweep follows six messages with EVERY number of trailing bytes 0..=140000 (530000).",
    "Trusted: the harness's RefMsg -> Message adapter and bit-exact comparison. Messages outside the alphabets / longer argument sequences are not visited (small-scope hypothesis).",
    "DESIGN.md 4/C01"),
  "C02": ("model_checking",
    "bounded exhaustive differential check of the real writer and parser against an independently written reference codec (reference model in the harness; every explored input is an implementation execution)",
-   "Encode side: for every message of U the crate's bytes (and the sub-writers' bytes) equal the bytes of a reference encoder written from the AUTOSAR PRS layout. Decode side: for every byte string of the decode input space (canonical encodings, an enumerated dialect universe, complete d=1 and structural d=2 mutation neighbourhoods of ~80-230 seed encodings, a header-field product over all 256 HTYP x LEN x MSIN x NOAR, all short byte strings over small alphabets, concatenations, junk+message truncations) x 3 storage-header variants, the parser's verdict class, decoded fields and consumed length equal the reference decoder's. The reference is self-checked on every message of U (decode(encode(m)) == m) and on two documented example messages.",
+   "Encode side: for every message of U the crate's bytes (and the sub-writers' bytes) equal the bytes of a reference encoder written from the AUTOSAR PRS layout. Decode side: for every byte string of the decode input space (canonical encodings, an enumerated dialect universe, complete d=1 and structural d=2 mutation neighbourhoods of ~80-230 seed encodings, a header-field product over all 256 HTYP x LEN x MSIN x NOAR, all short byte strings over small alphabets, concatenations, junk+message truncations) x 3 storage-header variants, the parser's verdict class, decoded fields and consumed length equal the reference decoder's. The reference is self-checked on every message of U (decode(encode(m)) == m) and on two documented example messages. U also contains sweep families: the storage pattern and the serial pattern embedded as content or as the first header bytes, EVERY length 0..=1100 (quick) / 0..=9000 (thorough) of 8 length-carrying fields, EVERY argument count 0..=255 in six shapes, bit-level value sweeps of every numeric kind and header field, and EVERY Unicode scalar value as string content. Decode side additionally: all 2^24 (HTYP, MCNT, LEN-high) header prefixes in front of a 64 KiB body, long junk around every power of two / multiple of 10 KiB / 64 KiB, embedded-pattern messages followed by trailing data, and history pairs: all 1375^2 ordered pairs (a, b) of inputs, b parsed twice after a, both verdicts compared with the reference (history-dependent state).",
    "Trusted: refmodel.rs (reference codec) and its documented verdict order; error variants/texts are not compared, only message / incomplete / reject.",
    "DESIGN.md 3.2, 4/C02"),
  "C03": ("model_checking",
    "bounded exhaustive enumeration of byte strings through every slice entry point of the real code with overflow checks and debug assertions compiled in (panic = violation)",
-   "The whole decode input space x 3 storage variants x 5 filter configurations goes through dlt_message, dlt_consume_msg, skip_storage_header, forward_to_next_storage_header, dlt_zero_terminated_string (7 sizes); every returned message is re-serialised and measured and each argument must pass valid(); plus inputs > 64 KiB (maximal messages, 0xFFFF length prefixes, 128 KiB junk) with cuts and header mutations, a construct_arguments product (type lists x all short data strings x byte order), and a second pass with a Trace-level sink logger so log-statement arguments are evaluated.",
+   "The whole decode input space x 3 storage variants x 5 filter configurations goes through dlt_message, dlt_consume_msg, skip_storage_header, forward_to_next_storage_header, dlt_zero_terminated_string (7 sizes); every returned message is re-serialised and measured and each argument must pass valid(); plus inputs > 64 KiB (maximal messages, 0xFFFF length prefixes, 128 KiB junk) with cuts and header mutations, a construct_arguments product (type lists x all short data strings x byte order), and a second pass with a Trace-level sink logger so log-statement arguments are evaluated. The decode input space includes the sweep families of U (every length, every count, every Unicode scalar, embedded patterns), the 2^24 header-prefix sweep over a full 64 KiB body, long junk and history-free repeats.",
    "Trusted: catch_unwind + panic hook; overflow-checks/debug-assertions profile. Aborts (allocation failure) would surface as exit 2, not as a verdict.",
    "DESIGN.md 4/C03"),
  "C04": ("model_checking",
    "bounded exhaustive enumeration of byte strings x filter configurations on the real parser/skipper against boundaries computed from the input bytes alone",
-   "For every input of the decode input space x 3 storage variants, under 5 filter configurations (none, keep-all, drop-all, level+ECU, context ids) and the message skipper: whenever a call returns Ok, the remainder must be the input's tail starting at (first pattern offset + 16 +) LEN, FilteredOut(n) must carry LEN - headers(HTYP), dlt_consume_msg must report 16+LEN, all configurations must agree, and parse loops over concatenated buffers must visit exactly the boundaries the length fields define.",
+   "For every input of the decode input space x 3 storage variants, under 5 filter configurations (none, keep-all, drop-all, level+ECU, context ids) and the message skipper: whenever a call returns Ok, the remainder must be the input's tail starting at (first pattern offset + 16 +) LEN, FilteredOut(n) must carry LEN - headers(HTYP), dlt_consume_msg must report 16+LEN, all configurations must agree, and parse loops over concatenated buffers must visit exactly the boundaries the length fields define. The decode input space includes the sweep families of U, the 2^24 header-prefix sweep over a full 64 KiB body (every declared length backed by data), long junk, and messages carrying the storage pattern as content followed by trailing data.",
    "Trusted: the 10-line expected_span oracle (pattern search + big-endian LEN). ParsedMessage::Invalid is counted, not judged.",
    "DESIGN.md 4/C04"),
  "C05": ("model_checking",
    "bounded exhaustive enumeration: every message of the universe x EVERY cut position through the real parser and skipper",
-   "Every message of U (as is and with a storage header forced) is cut at every position 0..len-1: dlt_message must answer IncompleteParse, any size hint must be >= 1 and <= the bytes actually missing; dlt_consume_msg likewise for every non-empty prefix and (no message) for the empty input.",
+   "Every message of U (as is and with a storage header forced) is cut at every position 0..len-1: dlt_message must answer IncompleteParse, any size hint must be >= 1 and <= the bytes actually missing; dlt_consume_msg likewise for every non-empty prefix and (no message) for the empty input. U also contains sweep families: the storage pattern and the serial pattern embedded as content or as the first header bytes, EVERY length 0..=1100 (quick) / 0..=9000 (thorough) of 8 length-carrying fields, EVERY argument count 0..=255 in six shapes, bit-level value sweeps of every numeric kind and header field, and EVERY Unicode scalar value as string content. The 21 KiB magic-prefix messages are cut at every position as well.",
    "Trusted: reference encoder used to produce the bytes (checked against the crate's writer by C02). 64 KiB boundary messages: all cuts within 600 bytes of either end, every 97th in between.",
    "DESIGN.md 4/C05"),
  "C06": ("model_checking",
    "bounded exhaustive enumeration of all strings over the pattern alphabet (search) and of junk x message x suffix products (parse) on the real code against a naive reference search",
-   "Search: all strings of length <= 8 (quick) / 10 (thorough) over {D,L,T,01,00,X} plus 64-128 KiB buffers with the pattern at boundary offsets: forward_to_next_storage_header must equal a naive first-occurrence scan (offset, remainder pointer). Parse: every pattern-free junk string of length <= 5/6 over that alphabet (every partial-pattern tail) and long junk x storage-header messages x suffixes must parse to the same message and remainder as the message alone; junk/message streams are recovered completely and in order.",
+   "Search: all strings of length <= 8 (quick) / 10 (thorough) over {D,L,T,01,00,X} plus 64-128 KiB buffers with the pattern at boundary offsets: forward_to_next_storage_header must equal a naive first-occurrence scan (offset, remainder pointer). Parse: every pattern-free junk string of length <= 5/6 over that alphabet (every partial-pattern tail) and long junk x storage-header messages x suffixes must parse to the same message and remainder as the message alone; junk/message streams are recovered completely and in order. Additionally the pattern at EVERY offset 0..=70100 (263000) behind three junk fills (search and parse), junk of every length 6..=72 (320) plain and ending in each proper pattern prefix, messages that carry the pattern as content, and every junk/message case under four filter configurations.",
    "Trusted: the naive scan; seed messages parse alone (asserted).",
    "DESIGN.md 4/C06"),
  "C07": ("model_checking",
    "stateless exploration of the real DltMessageReader under a controlled environment: DFS over choice sequences of read() results (bytes delivered, Interrupted) with deviation bounding, plus ALL compositions of short streams",
-   "The reader runs over a scripted Read whose every answer is a choice point. Streams: all sequences of 1..2/3 messages over an 8-message alphabet (incl. a 298-byte one and a complete-but-unparsable 4-byte one), every truncation, hostile length fields (LEN 0..5,13..15,65535 x HTYP classes), all short strings over a 7-symbol alphabet, a 65535-byte message. Schedules: every choice sequence with <= 2 (quick) / 3 (thorough) deviations, every uniform chunk size with a single Interrupted at every position, ALL 2^(n-1) compositions for n <= 18/22 bytes (with single Interrupted placements for n <= 12). Oracle: the harness's own cutter + dlt_message per piece; no panic.",
+   "The reader runs over a scripted Read whose every answer is a choice point. Streams: all sequences of 1..2/3 messages over an 8-message alphabet (incl. a 298-byte one and a complete-but-unparsable 4-byte one), every truncation, hostile length fields (LEN 0..5,13..15,65535 x HTYP classes), all short strings over a 7-symbol alphabet, a 65535-byte message. Schedules: every choice sequence with <= 2 (quick) / 3 (thorough) deviations, every uniform chunk size with a single Interrupted at every position, ALL 2^(n-1) compositions for n <= 18/22 bytes (with single Interrupted placements for n <= 12). Oracle: the harness's own cutter + dlt_message per piece; no panic. Bulk families with closed-formula schedules: a message of EVERY declared length 4..=9300 + windows above (thorough: all 4..=65535); streams longer than twice the buffer with 40 (128) phases of the buffer boundary x 7 (14) message sizes x 4 schedules x 4 filters; the default 10 MiB constructor on 10.3 MiB streams x 12 (48) phases; 1-byte reads with Interrupted before every read on messages up to 65535 bytes.",
    "Trusted: the scripted source + explorer (replay divergence is a machinery error); with_capacity(65551,65551) for bulk runs, DltMessageReader::new on a d<=1 subset. For streams > 64 bytes the short-read size menu is a boundary set.",
    "DESIGN.md 3.3, 4/C07"),
  "C08": ("model_checking",
    "stateless exploration of the real DltStreamReader under a controlled environment: DFS over choice sequences of poll_read results (Ready(k), Pending) with deviation bounding, plus all compositions of short streams; differential against the blocking reader",
-   "Same streams as C07; every poll_read answer of a scripted AsyncRead is a choice point ({Ready(k) for the menu of k, Pending}); the future is polled by a hand-rolled loop (no-op waker, poll budget). Every choice sequence with <= 2/3 deviations, every uniform chunk size alone / with Pending before every read / with one Pending at every position, ALL compositions for n <= 14/18 bytes. The message sequence and terminal class must equal the blocking reader's on the same bytes and the C07 cutter; no panic, no exhausted poll budget.",
+   "Same streams as C07; every poll_read answer of a scripted AsyncRead is a choice point ({Ready(k) for the menu of k, Pending}); the future is polled by a hand-rolled loop (no-op waker, poll budget). Every choice sequence with <= 2/3 deviations, every uniform chunk size alone / with Pending before every read / with one Pending at every position, ALL compositions for n <= 14/18 bytes. The message sequence and terminal class must equal the blocking reader's on the same bytes and the C07 cutter; no panic, no exhausted poll budget. The C07 bulk families run on the async reader with Pending in place of Interrupted (every declared length, long streams x buffer-boundary phases x filters, default 10 MiB capacity, a Pending before every 1-byte read).",
    "Trusted: scripted AsyncRead + poll loop. Wake-up registration is not checked (the harness re-polls after every Pending).",
    "DESIGN.md 3.3, 4/C08"),
  "C09": ("model_checking",
    "bounded exhaustive enumeration of filter configurations x message shapes on the real parser against the statement transcribed as a predicate",
-   "Three complete products: (min_log_level None + all 256 numbers x all message types incl. every log-level nibble x id hit/miss x ECU presence x both conversions), (app/context/ECU id sets in {absent, empty, {hit}, {miss}, {hit,miss}, duplicates} x counts {-1,0,|set|-1,|set|,|set|+1,i64::MAX} x ids x ECU x extended-header presence), and a reduced full product. Dropped exactly when the predicate says so, FilteredOut carries the payload length, kept messages are bit-identical to the unfiltered parse, same remainder; repeated through read::read_message.",
+   "Three complete products: (min_log_level None + all 256 numbers x all message types incl. every log-level nibble x id hit/miss x ECU presence x both conversions), (app/context/ECU id sets in {absent, empty, {hit}, {miss}, {hit,miss}, duplicates} x counts {-1,0,|set|-1,|set|,|set|+1,i64::MAX} x ids x ECU x extended-header presence), and a reduced full product. Dropped exactly when the predicate says so, FilteredOut carries the payload length, kept messages are bit-identical to the unfiltered parse, same remainder; repeated through read::read_message. Plus near-miss ids (all ordered pairs over 20 similar ids: blank/NUL/case/prefix/suffix variants, in the application, context and ECU position) and the filter through both readers on long fragmented streams against parsing each piece with the same filter.",
    "Trusted: the transcribed predicate expect_dropped().",
    "DESIGN.md 4/C09"),
  "C10": ("model_checking",
    "bounded exhaustive enumeration of message streams x all splits, with explicit-state breadth-first search over all merge histories of the real StatisticInfo values (invariant checked in every state)",
-   "All streams of <= 2 messages over a 291-symbol header alphabet, <= 3/4 over a 12-symbol collision-forcing alphabet, <= 5/6 over 4 symbols, with and without storage headers. Per stream: a recording collector must see each message once, in order, with the reference header values; StatisticInfoCollector must equal an independent tally; for every composition into contiguous parts a BFS explores every merge history (p_i.merge(p_j) for all ordered pairs, merging with/into new()); states keep the real vectors (order included) and are deduplicated by exact representation; in every state the canonical sum of the parts must equal the whole stream's statistics and no id may be listed twice.",
+   "All streams of <= 2 messages over a 291-symbol header alphabet, <= 3/4 over a 12-symbol collision-forcing alphabet, <= 5/6 over 4 symbols, with and without storage headers. Per stream: a recording collector must see each message once, in order, with the reference header values; StatisticInfoCollector must equal an independent tally; for every composition into contiguous parts a BFS explores every merge history (p_i.merge(p_j) for all ordered pairs, merging with/into new()); states keep the real vectors (order included) and are deduplicated by exact representation; in every state the canonical sum of the parts must equal the whole stream's statistics and no id may be listed twice. Plus long streams (255..66000 / 140000 messages, four shapes incl. 300 ECU / 400 application / 500 context ids) merged from 2..257 parts by left fold, right fold and balanced tree, and directly constructed statistics with counters up to 2^32+5 and usize::MAX/2.",
    "Trusted: the independent tally and canonical-sum invariant. More than 5 parts: left and right folds only.",
    "DESIGN.md 4/C10"),
  "C11": ("model_checking",
    "bounded exhaustive enumeration of abstract FIBEX models x layouts x file partitions, loaded by the real code from generated files, against an independently assembled expected model",
-   "Complete products per dimension group: all ordered pairs over a 35-entry signal-reference vocabulary; PDUs with 0..3 signal instances in all permutations x DESC variants x all 120 child orders x instance-internal order x ref style x noise; FRAMEs likewise x all 17 manufacturer-extension shapes; all subsets x orders of manufacturer-extension fields; all ordered pairs and triples of 8 PDU variants x 8 FRAME variants (duplicate ids, dangling refs); all 3^8 assignments of a model's elements to three files x document order; all 24 section orders. gather_fibex_data's result must equal the expectation as maps; extract_metadata is checked per frame id without and with 4 extended headers.",
+   "Complete products per dimension group: all ordered pairs over a 35-entry signal-reference vocabulary; PDUs with 0..3 signal instances in all permutations x DESC variants x all 120 child orders x instance-internal order x ref style x noise; FRAMEs likewise x all 17 manufacturer-extension shapes; all subsets x orders of manufacturer-extension fields; all ordered pairs and triples of 8 PDU variants x 8 FRAME variants (duplicate ids, dangling refs); all 3^8 assignments of a model's elements to three files x document order; all 24 section orders. gather_fibex_data's result must equal the expectation as maps; extract_metadata is checked per frame id without and with 4 extended headers. Plus file names independent of listing order (all 6 assignments), all ordered triples of distinct sequence numbers of different digit counts (0..2^32-1), and 4..1000 (20000) instances in ascending / descending / stride order.",
    "Trusted: fibexgen.rs (renderer + expected_model). Grammar = that of the repository's sample files; no sequence-number ties, no duplicate signal/coding ids, no empty SHORT-NAME.",
    "DESIGN.md 4/C11"),
  "C12": ("fault_enumeration",
    "exhaustive fault enumeration on the real loader: every truncation offset, every structural deletion, byte corruption, bad paths; each load in a watched worker process",
-   "For the repository's two sample FIBEX files and 10-16 generated documents covering every element kind and layout: every truncation offset, deletion of every element subtree / end tag / attribute, every byte replaced by each of 8 markup-relevant values plus low-bit and case-bit flips (documents <= 4 KiB; all in thorough), two-file loads with either file truncated at every offset, and 8 bad-path cases. Each load runs in a worker child process under a 10 s deadline (healthy loads take < 30 ms), a case missing it is re-run alone with 20 s before it is called a hang; panics are reported from the worker.",
+   "For the repository's two sample FIBEX files and 10-16 generated documents covering every element kind and layout: every truncation offset, deletion of every element subtree / end tag / attribute, every byte replaced by each of 8 markup-relevant values plus low-bit and case-bit flips (documents <= 4 KiB; all in thorough), two-file loads with either file truncated at every offset, and 8 bad-path cases. Each load runs in a worker child process under a 10 s deadline (healthy loads take < 30 ms), a case missing it is re-run alone with 20 s before it is called a hang; panics are reported from the worker. Plus value-substitution faults (every attribute value replaced by every other distinct attribute value of the document, by '' and by an unknown id: reference retargeting, cycles, duplicate ids; every element text replaced by hostile constants), documents with multi-byte characters with and without a UTF-8 BOM, and N in {1..200000 (1000000)} copies of 11 snippets after 11 structural anchors (deep nesting / long runs; a stack overflow of the worker is a violation).",
    "Trusted: wall-clock deadline with a four-orders-of-magnitude margin; the scanner that finds elements/attributes for deletion.",
    "DESIGN.md 4/C12"),
  "C13": ("model_checking",
    "bounded exhaustive enumeration of signal-type lists x value alphabets x byte orders x every truncation on the real construct_arguments against a reference decode of packed fields",
-   "All field lists of length <= 2 over a ~75-symbol field alphabet (15 kinds x values incl. empty / NUL-containing / invalid-UTF-8 strings, empty raw data) and length 3 over a reduced alphabet, both byte orders; for each the exact payload, EVERY truncation and 1/3 trailing bytes: exact-or-longer payloads must give one argument per type, in order, same type info, bit-exact value, no name/unit/fixed point; every strict prefix and every invalid-UTF-8 string must give an error; never a panic. Maximal (65535) length prefixes; fixed-point kinds for the no-panic clause.",
+   "All field lists of length <= 2 over a ~75-symbol field alphabet (15 kinds x values incl. empty / NUL-containing / invalid-UTF-8 strings, empty raw data) and length 3 over a reduced alphabet, both byte orders; for each the exact payload, EVERY truncation and 1/3 trailing bytes: exact-or-longer payloads must give one argument per type, in order, same type info, bit-exact value, no name/unit/fixed point; every strict prefix and every invalid-UTF-8 string must give an error; never a panic. Maximal (65535) length prefixes; fixed-point kinds for the no-panic clause. Plus homogeneous runs of each supported kind and cycling shapes for N up to 65536 (70000) fields (payloads beyond 65535 bytes), string/raw fields of every length of the sweep between two fixed fields, and the bit-level value sweep at an even and an odd offset.",
    "Trusted: the harness's field encoder.",
    "DESIGN.md 4/C13"),
  "C14": ("model_checking",
    "exhaustive enumeration of complete finite code domains on the real conversion functions against reference tables of the bit layout",
-   "All 256 HTYP bytes (through a real message: version, flags, optional fields, re-encoding), all 256 MSIN bytes (MessageType::try_from / u8::from and through an extended header), and type-info words: quick = all 2^18 low-bit patterns x 32 reserved-bit patterns (8.4 M words), thorough = ALL 2^32 words (~18 s): accepted iff exactly one supported kind bit among bits 4..10 and a supported TYLE; decoded description equals the reference; re-encoding differs only in unused bits, decodes to the same description, BE/LE encodings are byte reversals.",
+   "All 256 HTYP bytes (through a real message: version, flags, optional fields, re-encoding), all 256 MSIN bytes (MessageType::try_from / u8::from and through an extended header), and type-info words: quick = all 2^18 low-bit patterns x 32 reserved-bit patterns (8.4 M words), thorough = ALL 2^32 words (~18 s): accepted iff exactly one supported kind bit among bits 4..10 and a supported TYLE; decoded description equals the reference; re-encoding differs only in unused bits, decodes to the same description, BE/LE encodings are byte reversals. Plus history: ALL 2^26 ordered pairs over the patterns of bits 0..12 through TypeInfo::try_from (y judged twice after x) and all 4096^2 pairs of one-argument messages through the parser against the reference decoder.",
    "Trusted: refmodel::decode_type_info / message_type_of reference tables.",
    "DESIGN.md 4/C14"),
  "C15": ("model_checking",
    "bounded exhaustive enumeration of arguments and message configurations on the real length functions and constructor",
-   "Every argument of A_full: len() == both serialisation lengths == reference layout length. Message::new from the configuration of every message of U: the built message must equal the reference message field for field (payload_length, verbose, NOAR, extended-header flag), byte_len() == serialisation length, and it must parse back bit-identically; non-representable configurations (payload kind x mismatching/absent extended-header info): length clauses only. add_storage_header: seeds x ECU ids x timestamps incl. None (clock: structure only). valid(): all kinds x all Value variants.",
+   "Every argument of A_full: len() == both serialisation lengths == reference layout length. Message::new from the configuration of every message of U: the built message must equal the reference message field for field (payload_length, verbose, NOAR, extended-header flag), byte_len() == serialisation length, and it must parse back bit-identically; non-representable configurations (payload kind x mismatching/absent extended-header info): length clauses only. add_storage_header: seeds x ECU ids x timestamps incl. None (clock: structure only). valid(): all kinds x all Value variants. U includes the sweep families (every length, every count 0..=255, every Unicode scalar); add_storage_header is also applied to messages that already carry a storage header (three variants).",
    "Trusted: reference encoder for expected lengths.",
    "DESIGN.md 4/C15"),
  "C16": ("model_checking",
    "bounded exhaustive enumeration of byte strings: parse, re-serialise, re-parse on the real code (differential against itself)",
-   "Every input of the decode input space x 3 storage variants on which dlt_message returns a message: if the re-serialisation has the length the message's own header declares (premise; counted per family), it must parse back with nothing left over to a bit-identical message whose serialisation is byte-identical.",
+   "Every input of the decode input space x 3 storage variants on which dlt_message returns a message: if the re-serialisation has the length the message's own header declares (premise; counted per family), it must parse back with nothing left over to a bit-identical message whose serialisation is byte-identical. The decode input space includes the sweep families of U (every length, every count incl. homogeneous runs with differing type-info bits, bit-level values incl. every float exponent, every Unicode scalar).",
    "Trusted: same_message (bit-exact structural comparison).",
    "DESIGN.md 4/C16"),
  "C17": ("model_checking",
-   "exhaustive enumeration of a finite input space on the real code (all sub-second residues x boundary quotients)",
-   "Every one of the 1000 (ms) and 10^6 (us) sub-second residues is combined with every whole-second quotient of a boundary set (0..4, 2^k-1/2^k/2^k+1, powers of ten +-1, 2^32-1) and DltTimeStamp::from_ms / from_us is run on each input; seconds*10^6+microseconds must equal the input in microseconds, microseconds < 10^6, no panic (overflow checks on). Complete over the part of the input the arithmetic can get wrong (the remainder), boundary-complete over the quotient.",
+   "exhaustive enumeration of contiguous input ranges (every input of 0..2^32 and beyond) and of all sub-second residues x boundary quotients on the real code",
+   "Every one of the 1000 (ms) and 10^6 (us) sub-second residues is combined with every whole-second quotient of a boundary set (0..4, 2^k-1/2^k/2^k+1, powers of ten +-1, 2^32-1) and DltTimeStamp::from_ms / from_us is run on each input; seconds*10^6+microseconds must equal the input in microseconds, microseconds < 10^6, no panic (overflow checks on). Complete over the part of the input the arithmetic can get wrong (the remainder), boundary-complete over the quotient. Plus contiguous ranges: EVERY input 0..2^30 (ms) and 0..2^32+2^22 (us) [thorough 2^35 / 2^36], the last 2^24 (2^28) inputs of the legal domain, 48 inputs around every whole second up to 70000 (4.3 M) s, 8192 inputs around every power of two.",
    "Trusted: the harness oracle (u128 arithmetic). Quotients outside the boundary set are not visited; div and rem do not interact.",
    "DESIGN.md 4/C17"),
  "C18": ("model_checking",
    "exhaustive enumeration of the product kind x value x fixed-point data on the real code",
-   "The complete product of all 19 argument kinds x every Value variant (integer alphabets incl. MIN/MAX/2^53+1 per width) x fixed-point data {absent, quantization alphabet incl. NaN/inf/negative/subnormal x I32/I64 offset alphabet incl. MIN/MAX/negative} is fed to Argument::to_real_value: no panic (overflow checks on), Some only for (fixed-point kind, data, integer value), and the exact sum wherever the statement's range condition holds (computed independently in i128).",
+   "The complete product of all 19 argument kinds x every Value variant (integer alphabets incl. MIN/MAX/2^53+1 per width) x fixed-point data {absent, quantization alphabet incl. NaN/inf/negative/subnormal x I32/I64 offset alphabet incl. MIN/MAX/negative} is fed to Argument::to_real_value: no panic (overflow checks on), Some only for (fixed-point kind, data, integer value), and the exact sum wherever the statement's range condition holds (computed independently in i128). Plus a dense family: 4 fixed-point kinds x 1570 values (all 8-bit values, 16-bit every 251st, walking bits of 32/64-bit, mid-range constants) x 2598 quantizations (every f32 exponent x 5 mantissas x sign, decimal and 2^k constants) x 16 (208) offsets; thorough: ALL 2^32 quantization bit patterns for four (kind, value, offset) combinations.",
    "Trusted: the oracle's f64 product mirrors the statement's formula; 128-bit values are judged for no-panic and the 'Some only if' clause only.",
    "DESIGN.md 4/C18"),
  "C19": ("model_checking",
    "bounded exhaustive enumeration of all short byte strings over a cut-prone alphabet x all sizes on the real code against an independent field rule",
-   "All strings of length <= 6/7 over {00,'a',C3,A9,E2,82,AC,FF} x all sizes 0..=8/9: with enough bytes exactly `size` bytes are consumed and the text is the longest valid-UTF-8 prefix of the bytes before the first NUL (computed without valid_up_to); with fewer bytes: incomplete with hint <= shortfall. Sizes 255..65535 against inputs of size-1/size/size+1 bytes with NUL/invalid bytes at boundary positions; all 4096 four-byte strings in each id position of a message.",
+   "All strings of length <= 6/7 over {00,'a',C3,A9,E2,82,AC,FF} x all sizes 0..=8/9: with enough bytes exactly `size` bytes are consumed and the text is the longest valid-UTF-8 prefix of the bytes before the first NUL (computed without valid_up_to); with fewer bytes: incomplete with hint <= shortfall. Sizes 255..65535 against inputs of size-1/size/size+1 bytes with NUL/invalid bytes at boundary positions; all 4096 four-byte strings in each id position of a message. Plus every size 0..=300 (1100) x special byte at every position x 3 fills x 4 input lengths, and EVERY Unicode scalar value in 7 contexts (intact, before a lone lead byte, before a NUL, cut by the size limit, incomplete, before U+FFFD + invalid byte, before padding).",
    "Trusted: refmodel::clean_field.",
    "DESIGN.md 4/C19"),
 }
